@@ -55,6 +55,7 @@ type streamSpec struct {
 }
 
 type scenario struct {
+	IDBit   *int         `json:"idbit"`  // stream ids of streams 1, 2, .. differ from a base id only in this bit (+ stream number - 2)
 	SameID  int          `json:"sameid"` // all streams use one stream id: a restarted sender (sequence numbers start again)
 	Mode    string       `json:"mode"`
 	Streams []streamSpec `json:"streams"`
@@ -172,6 +173,13 @@ func run(w *vt.Writer, sc *scenario, scn int) {
 		for si, st := range sc.Streams {
 			s := si + 1
 			streamID := uint32(0x1000*s + 7)
+			if sc.IDBit != nil {
+				// 20-bit stream ids that differ in a single bit position
+				streamID = 0x25a5b
+				if s > 1 {
+					streamID ^= 1 << uint((*sc.IDBit+s-2)%20)
+				}
+			}
 			if sc.SameID == 1 {
 				streamID = 0x1007
 			}
